@@ -83,11 +83,23 @@ def cases(rng, tier):
             if r < 0.35 or npush == 0:
                 ops.append(["push", rng.choice(["c_rs", "c_es"])]); npush += 1
             elif r < 0.8:
-                ops.append(["redeem", rng.choice(["c_rs", "c_es", "same"]), rng.randrange(npush) if rng.random() < 0.9 else 99])
+                ops.append(["redeem", rng.choice(["c_rs", "c_es", "same", "same", "same"]), rng.randrange(npush) if rng.random() < 0.9 else 99])
+                if rng.random() < 0.3:
+                    ops.append(list(ops[-1]))          # immediate replay
             else:
                 ops.append(["tick", rng.choice([1, 59, 61, 4000, 100000])])
         out.append({"t": "par", "ops": ops})
     return out
+
+
+def corpus():
+    # several outstanding pushed requests: redeem an older one, replay it, then the newer one; by the owner and by another client; after the lifetime
+    return [
+        {"t": "par", "ops": [["push", "c_rs"], ["push", "c_rs"], ["redeem", "same", 0], ["redeem", "same", 0], ["redeem", "same", 1], ["redeem", "same", 1]]},
+        {"t": "par", "ops": [["push", "c_rs"], ["push", "c_es"], ["push", "c_rs"], ["redeem", "same", 1], ["redeem", "same", 1], ["redeem", "same", 0], ["redeem", "same", 2], ["redeem", "same", 0]]},
+        {"t": "par", "ops": [["push", "c_rs"], ["push", "c_es"], ["redeem", "c_es", 0], ["redeem", "c_rs", 0], ["redeem", "c_es", 1]]},
+        {"t": "par", "ops": [["push", "c_rs"], ["tick", 59], ["push", "c_rs"], ["tick", 2], ["redeem", "same", 0], ["redeem", "same", 1]]},
+    ]
 
 
 def _object(E, c):
